@@ -15,12 +15,18 @@ FAMILIES = [
     ("dup-in-dots", "var x expression", "foo(x, ..., x)", "ends(x, ...)"),
     ("dup-complit", "var x expression", "T{x, x}", "T{x}"),
 ]
+# pairs of expressions that differ only in a token the syntax tree records as a valid / invalid position
+POS_ONLY = [("g(a...)", "g(a)"), ("func() (int) { return 1 }", "func() int { return 1 }"),             ("func() { var (u int); _ = u }", "func() { var u int; _ = u }"), ("func() { type (A = int) }", "func() { type (A int) }"),
+            ("h(b, c...)", "h(b, c)"), ("func() { type A = B }", "func() { type A B }")]
 BASE = ["a", "a.b", "f(1)", "g(h(2))", "x + y", "m[k]", "[]int{1}", "func() {}", "a.b.c(3)", "\"s\"", "*p", "v.(T)"]
 
 
 def almost(rng, e):
     """an expression that differs from e in one leaf, in depth, in parentheses, or only in layout"""
     r = rng.random()
+    if r < 0.12:
+        a, b = rng.choice(POS_ONLY)
+        return ("pos-only", (a, b) if rng.random() < 0.5 else (b, a))
     if r < 0.3:
         m = enginegen.mutate_go(rng, e)
         return ("leaf", m[1]) if m else ("same", e)
@@ -41,6 +47,8 @@ def case(rng, k):
     for j in range(rng.randint(3, 7)):
         e = rng.choice(BASE)
         kind, e2 = almost(rng, e)
+        if kind == "pos-only":
+            e, e2 = e2
         idn = rng.choice(["alpha", "beta", "pkg.sel", "arr[0]", "fn()"])
         code = minus.replace("\n-", "; ")
         # first occurrence gets e, later occurrences e2
